@@ -86,6 +86,7 @@ def fake_nodes(simple_tree):
 def oracle(ctx, rnd, parser, sql, nullkw, ac):
     f = impl.ENTRY[parser]
     kw = dict(all_columns=ac, **nullkw)
+    impl.outcome(f, "select 1")      # a plain call first: whatever an earlier call installed, this statement starts from the default configuration
     st_s, S = impl.outcome(f, sql, **kw)
     st_n, N = impl.outcome(f, sql, calls=impl.M.normal_op, **kw)
     call = dict(entry=parser, sql=sql, all_columns=ac, **{k: repr(v) for k, v in nullkw.items()})
@@ -135,6 +136,10 @@ def run(ctx):
     l2.U = impl.build_all()
     rnd = ctx.rng("c12")
     stmts = l2.statements(ctx, ctx.n(250, 2500)) + [("common_parser", s) for s in c11.TEMPLATES]
+    # expressions that the grammar scrubs while it is still matching (window frame bounds): they see the callback that is installed at that moment
+    stmts += [("common_parser", s) for s in ("select sum(x) over (order by b range between a + 1 preceding and current row) from t",
+                                             "select sum(x) over (order by b range n * 2 preceding) from t, u where f(a + 1, b) = g(c)",
+                                             "select max(x) over (partition by p order by b range between a - 1 preceding and c * 2 following) from t")]
     cases, meta = [], []
     for parser, sql in stmts:
         combos = [(nk, ac) for nk in ({}, {"null": None}) for ac in (None, "*")]
